@@ -7,13 +7,13 @@ import contracts.standins_storage as BS
 import contracts.copying as CY
 
 PROVED = [ST.read_and_format, ST.read_format_split, ST.get_splits, ST.save_from, ST.saver_save, CH.chunk_split,
-          CY.copy_to_frontend, CY.merge_per_chunk, CY.dry_load_files]
+          CY.copy_to_frontend, CY.merge_per_chunk, CY.dry_load_files, ST.filesaver_init, ST.filesaver_save_chunk, ST.filesaver_close]
 
 PROPERTY = Property(
     "C16", "proof",
     contracts=PROVED,
     standins=[StandIn("copy / rechunker / rechunk on load / per-chunk merge preserve the rows (real code)", B.copy_preserves, B.copy_preserves.harness,
-                      budget={"quick": 100, "thorough": 1200}),
+                      budget={"quick": 130, "thorough": 1200}),
               StandIn("multi-megabyte chunk through every codec", BS.big_round_trip, BS.big_round_trip.harness,
                       budget={"quick": 4, "thorough": 8})],
     trusted=["pyvc VC generator and value model", "z3 5.1.0 / cvc5 1.4.0"],
